@@ -60,7 +60,11 @@ void merge_union_cb(void *clos, const uint8_t *key, size_t len_key, const uint8_
 	if (m && !m->stateless) {
 		m->calls++;
 		m->per_key[Bytes((const char *)key, len_key)]++;
-		if (m->fail_at && m->calls == m->fail_at) { m->failed_key = Bytes((const char *)key, len_key); m->fail_fired = true; *out = nullptr; *lout = 0; return; }
+		if (m->fail_at && m->calls == m->fail_at) {
+			// failure is reported the way a real callback does it: return without producing a value
+			// (the outputs are deliberately left untouched; the caller must have initialised them)
+			m->failed_key = Bytes((const char *)key, len_key); m->fail_fired = true; return;
+		}
 	}
 	Bytes r = fold_values(mfunc, Bytes((const char *)v0, l0), Bytes((const char *)v1, l1));
 	*out = (uint8_t *)malloc(r.size() ? r.size() : 1);
